@@ -453,6 +453,51 @@ fn min_groups(groups: &[GroupState], amount: u64) -> Option<usize> {
     best
 }
 
+/// Best objective value of `group_solver` for ONE coupled entry when no coupling weight is active (brute force
+/// over the group subsets with the solver's own cost terms); `None` if no subset is feasible.
+fn best_objective(groups: &[GroupState], amount: u64) -> Option<f64> {
+    let (u, f) = (amount / FPU, amount % FPU);
+    let n = groups.len().min(16);
+    let mut best: Option<f64> = None;
+    for mask in 0u32..(1u32 << n) {
+        let mut units = 0u64;
+        let mut units_frac = 0u64;
+        let mut any_frac = false;
+        let mut cost = 0.0f64;
+        for (g, gs) in groups.iter().enumerate().take(n) {
+            if mask & (1 << g) == 0 {
+                continue;
+            }
+            let ug = gs.free.len() as u64;
+            let fg = gs.fr.iter().map(|(_, v)| *v as u64).max().unwrap_or(0);
+            units += ug;
+            if f == 0 {
+                cost += -1024.0 - (ug as f64) / 32.0;
+            } else if fg >= f {
+                units_frac += ug + 1;
+                cost += -1024.0 + (fg as f64) / (FPU as f64 / 16.0);
+            } else {
+                units_frac += ug;
+                cost += -1024.0;
+            }
+        }
+        for gs in groups.iter().take(n) {
+            if gs.fr.iter().any(|(_, v)| *v as u64 >= f) {
+                any_frac = true;
+            }
+        }
+        let feasible = if f == 0 {
+            units >= u
+        } else {
+            units_frac >= u + 1 && (u == 0 || !any_frac || units >= u)
+        };
+        if feasible && best.is_none_or(|b| cost > b) {
+            best = Some(cost);
+        }
+    }
+    best
+}
+
 // ------------------------------------------------------------------------------------------------
 // Statistics (stderr, `--stats`)
 // ------------------------------------------------------------------------------------------------
@@ -723,11 +768,39 @@ fn alloc_monitors(
                 now.is_some() && now == init
             })
         {
-            m.fail(
-                "c16.strict-refusal",
-                "tiebreak-exceeds-margin",
-                format!("request {rq_s} refused although available and every coupled entry needs no more groups than on the initial state"),
-            );
+            // the admission test compares the solver objective over the coupled entries with the optimum on the
+            // empty worker minus 0.1; without an active coupling weight the objective is the sum of the entries'
+            // own optima. A refusal is explained by the tie-break terms (finding F30) only if that sum really
+            // drops below the margin; otherwise the request is refused at an admissible objective.
+            let obj = |views: &[PoolView]| -> Option<f64> {
+                let mut sum = 0.0;
+                for e in &coupled {
+                    match views.get(e.0 as usize) {
+                        Some(PoolView::Idx { groups, .. }) => sum += best_objective(groups, e.2)?,
+                        _ => return None,
+                    }
+                }
+                Some(sum)
+            };
+            let now = obj(&pre);
+            let init = obj(&cx.init);
+            let explained = match (now, init) {
+                (Some(a), Some(b)) => a < b - 0.1 + 1e-6,
+                _ => true,
+            };
+            if explained {
+                m.fail(
+                    "c16.strict-refusal",
+                    "tiebreak-exceeds-margin",
+                    format!("request {rq_s} refused although available and every coupled entry needs no more groups than on the initial state"),
+                );
+            } else {
+                m.fail(
+                    "c16.strict-refusal",
+                    "refused-at-admissible-objective",
+                    format!("request {rq_s} refused although available, every coupled entry needs no more groups than on the initial state and the solver objective of the coupled entries {now:?} is within 0.1 of the optimum {init:?}"),
+                );
+            }
         }
     }
 
